@@ -37,6 +37,17 @@ def run(v, tier, seed, replay):
     finally:
         s2.cleanup()
     common.client_entry_points(v, "C03", tier, seed, ('C03',))
+    # the monitor agent (cmd/agent_monitor.go) is how a fork is exposed in a deployment: its outcomes on honest, altered
+    # and re-gossiped batches against a real node (the `agents` command of C19)
+    s3, res3 = common.harness(v, "C03", "node", "agents", tier, seed, need_rocks=True)
+    try:
+        st = res3.get("stats", {})
+        v.coverage.setdefault("distribution", {}).update({"agents_" + k: n for k, n in st.items() if k.startswith("monitor")})
+        for viol in (res3.get("violations") or []):
+            if viol["signature"].startswith("C19:monitor"):
+                v.violation("C03:" + viol["signature"][4:], viol["what"], viol["replay"])
+    finally:
+        s3.cleanup()
     v.coverage["trusted_base"] = vlib.TRUSTED_COMMON + [
         "premise H_inj (hash injective on the seven structured input formats) in the soundness theorems; satisfiable (term instance); SHA-256 collision resistance and unambiguity of the byte concatenation are what it stands for",
         "modelled rather than verified: crypto/sha256 (Gallina SHA-256 in Base/Sha256.v compared byte-for-byte on every run), storage/bplus as the node store, Go map semantics of AuditPath"]
